@@ -577,6 +577,17 @@ def run(ctx):
         except Exception as e:  # noqa
             res["hist"][f"refit_scenario_failed:{type(e).__name__}"] = res["hist"].get(f"refit_scenario_failed:{type(e).__name__}", 0) + 1
 
+    # (B3) two sites in one process whose weather feeds agree in length, first and last reading (whole-degree feeds of neighbouring
+    # stations): each model's recorded limits are those of ITS days
+    try:
+        mseed = rng.randrange(1 << 30)
+        fails_ = twin_scenario("current", mseed)
+        res["evaluations"] += 1
+        res["oracle_failures"] += fails_
+        sigs.add(("twin_sites", "current"))
+    except Exception as e:  # noqa
+        res["hist"][f"twin_scenario_failed:{type(e).__name__}"] = res["hist"].get(f"twin_scenario_failed:{type(e).__name__}", 0) + 1
+
     # (C) correspondence: Lean refine vs the real constructor on every raw vector seen
     if ctx.get("model_ok", True) and lines:
         outs = core.run_driver(lines)
@@ -640,6 +651,50 @@ def refit_scenario(profile, mseed):
     return fails, first_keys != keys
 
 
+TWIN_KIND = "two sites, weather feeds equal in length and end readings"
+
+
+def twin_scenario(profile, mseed):
+    """site A, then (another model object) site B whose whole-degree weather differs from A's only in the interior: a cold snap in
+    the first weeks and a heat wave mid-year.  Every component of B records the limits of B's own days."""
+    dfA = meter(random.Random(mseed), "both", n=365, noise=0.5)
+    dfA["temperature"] = dfA["temperature"].round(0)
+    dfB = dfA.copy()
+    tb = dfB["temperature"].to_numpy(dtype=float).copy()
+    tb[10:16] = tb.min() - 19.0
+    tb[190:196] = tb.max() + 11.0
+    dfB["temperature"] = tb
+    fit_real(profile, dfA)
+    mB = fit_real(profile, dfB)
+    case = dict(profile=profile, kind=TWIN_KIND, meter_seed=mseed)
+    fails = []
+    full = sorted(tb)
+    for key, sub in mB.params.submodels.items():
+        tc = dict(sub.temperature_constraints)
+        r = mB.model[key]
+        # the days of the component, from the model's own (default) calendar settings: "wd-su_sh" = weekdays of summer and shoulder
+        sm, wm = mB.settings.season.model_dump(), mB.settings.weekday_weekend.model_dump()
+        months = ["january", "february", "march", "april", "may", "june", "july", "august", "september", "october", "november", "december"]
+        days = ["monday", "tuesday", "wednesday", "thursday", "friday", "saturday", "sunday"]
+        dt, seasons = str(key).split("-")
+        seas = {dict(su="summer", sh="shoulder", wi="winter")[x] for x in seasons.split("_")}
+        dts = {"weekday", "weekend"} if dt == "fw" else {dict(wd="weekday", we="weekend")[dt]}
+        keep = np.array([sm[months[t.month - 1]] in seas and wm[days[t.dayofweek]] in dts for t in dfB.index])
+        seg = tb[keep]
+        want = [float(seg.min()), float(seg.max())] if len(seg) else None
+        got = [float(tc["T_min"]), float(tc["T_max"])]
+        ok = (got == want) if want is not None else (full[0] - 1e-9 <= got[0] and got[1] <= full[-1] + 1e-9)
+        # a single full-year component must span the whole year's range, whatever the internals are called
+        if str(key).startswith("fw-su_sh_wi") and not (got[0] == full[0] and got[1] == full[-1]):
+            ok = False
+            want = [float(full[0]), float(full[-1])]
+        if not ok:
+            fails.append(dict(clause="recorded_limits_are_those_of_the_days_fitted", case=case, component=str(key), recorded=got,
+                              limits_of_the_fitted_days=want, also_recorded_on_result=[float(r.T_min), float(r.T_max)]))
+            break
+    return fails
+
+
 def _replay_case(w):
     I = _impl()
     settings = I["DailyModel"]().settings
@@ -649,6 +704,8 @@ def _replay_case(w):
     case = w["case"]
     if case.get("kind") == REFIT_KIND:
         return refit_scenario(case["profile"], case["meter_seed"])[0]
+    if case.get("kind") == TWIN_KIND:
+        return twin_scenario(case["profile"], case["meter_seed"])
     df = meter(random.Random(case["meter_seed"]), case["kind"])
     m = fit_real(case["profile"], df)
     fails = []
